@@ -504,6 +504,28 @@ func (cc *classCtx) wire1(o *origin.Origin, mode string) (bool, string) {
 			keys = append(keys, r.KeyTypes...)
 		}
 	}
+	// a registered decoder that delegates to this one (forwarding its own arguments) brings its keys along:
+	// what arrives in the slot is then also what the senders of those keys wrote
+	for _, r := range cs.Regs {
+		if !r.IsDec() || r.Fn == nil || r.Fn == o.Decoder || r.Fn.Blocks == nil {
+			continue
+		}
+		delegates := false
+		sx.EachInstr(r.Fn, func(in ssa.Instruction) {
+			call, ok := in.(ssa.CallInstruction)
+			if !ok || sx.Callee(call) != o.Decoder {
+				return
+			}
+			for _, a := range call.Common().Args {
+				if _, isParam := a.(*ssa.Parameter); isParam {
+					delegates = true
+				}
+			}
+		})
+		if delegates {
+			keys = append(keys, r.KeyTypes...)
+		}
+	}
 	generic := false
 	for _, k := range keys {
 		found := false
